@@ -156,6 +156,8 @@ pub struct Sim {
     pub watch_log: Vec<(u64, usize, Vec<u8>, Option<Vec<u8>>)>,
     /// network partition: every request between simulated nodes is lost
     pub partitioned: bool,
+    /// keep every parked disk task parked (no gate is released by the scheduler)
+    pub hold_gates: bool,
 }
 
 pub fn quic_addr(port: u16) -> Multiaddr {
@@ -183,6 +185,7 @@ impl Sim {
             watch: vec![],
             watch_log: vec![],
             partitioned: false,
+            hold_gates: false,
         }
     }
 
@@ -285,6 +288,9 @@ impl Sim {
     }
 
     fn enabled_gates(&self) -> Vec<GateId> {
+        if self.hold_gates {
+            return vec![];
+        }
         let s = self.gates.lock().expect("gates");
         // per key: only the oldest parked task may be released (independence is promised across keys only)
         let mut out: Vec<GateId> = vec![];
